@@ -400,6 +400,16 @@ class OpRunner(object):
                         diag.append(t)
                         break
         obs = {'exit': runner.exit_class(res), 'lines': lines, 'diag': diag, 'unparsed': bad}
+        # the same listing with the size of the payload in place of the date (trash-list --size): one line per entry that has
+        # a payload, at the same locations, whatever else lies in the directory
+        r5 = random.Random('size|%s|%s' % (w.conc.variant_seed, lab['td']))
+        if r5.random() < 0.3:
+            res2 = self._run('trash-list', argv + ['--size'], cwd, shim_kw=shim_kw)
+            locs = []
+            for prefix, loc, raw in self.parse_records(res2['stdout']):
+                if loc is not None and re.fullmatch(rb'\d+ ?', prefix.strip() + b' ' if prefix.strip() else b''):
+                    locs.append({'r': loc[0], 'd': loc[1], 'n': loc[2]})
+            obs['size'] = {'exit': runner.exit_class(res2), 'locs': locs, 'stderr': res2['stderr'][-300:].decode('utf-8', 'backslashreplace')}
         return obs, res
 
     def listdirs(self, lab, state, shim_kw=None):
